@@ -254,7 +254,7 @@ Qed.
 (* ---- initial states denote the pipeline ---- *)
 Lemma isrc_init_items s : isource_supported s = true -> isrc_items (isrc_init s) = src_items s.
 Proof.
-  destruct s as [l|n|x n| |l|evs|evs]; simpl; intros H; try reflexivity; try discriminate.
+  destruct s as [l|n|x n| |l|evs|evs|e]; simpl; intros H; try reflexivity; try discriminate.
   unfold counter_items. rewrite Z.sub_0_r. apply map_ext. intros k. lia.
 Qed.
 
